@@ -683,7 +683,34 @@ class Exec(object):
             if isinstance(x, VNone):
                 return self.exc(TypeError, s)
         if isinstance(op, ast.Mod) and isinstance(a, VStr):
-            # %-formatting: value is an unconstrained string unless a spec function models it
+            # %-formatting.  Exact for a literal format with only %s / %d directives and matching
+            # arguments; otherwise an unconstrained string.
+            fmt = const_str(a.t)
+            argv = b.items if isinstance(b, VTuple) else [b]
+            if fmt is not None and '%%' not in fmt:
+                import re as _re
+                pieces = _re.split(r'(%s|%d)', fmt)
+                dirs = [p for p in pieces if p in ('%s', '%d')]
+                if len(dirs) == len(argv) and '%' not in ''.join(p for p in pieces if p not in ('%s', '%d')):
+                    out = []
+                    ok = True
+                    k = 0
+                    for p in pieces:
+                        if p == '%s' and isinstance(argv[k], VStr) and (argv[k].kind == 'str') == (a.kind == 'str'):
+                            out.append(argv[k].t)
+                            k += 1
+                        elif p in ('%d', '%s') and isinstance(argv[k], VInt):
+                            from .calls import int_to_dec
+                            out.append(int_to_dec(self, argv[k].t))
+                            k += 1
+                        elif p in ('%s', '%d'):
+                            ok = False
+                            break
+                        elif p:
+                            out.append(z3.StringVal(p))
+                    if ok:
+                        t = out[0] if len(out) == 1 else (z3.Concat(*out) if out else z3.StringVal(''))
+                        return self.val(VStr(t, a.kind), s)
             return self.val(VStr(z3.String(fresh_name('fmt')), a.kind), s)
         if isinstance(op, (ast.FloorDiv, ast.Mod)) and isinstance(b, VInt):
             return self.branch(b.t == 0, s, lambda s2: self.exc(ZeroDivisionError, s2),
